@@ -46,6 +46,8 @@ type Oblig struct {
 	Model    map[string]string
 	Instance int
 	solverOut  string
+	hasRec     bool
+	run        *runInfo
 	allAnswers map[string]string
 }
 
@@ -78,12 +80,14 @@ type State struct {
 	pc          []*Term
 	steps       int
 	ghostDefers []string
+	hints       []hintSite
+	results     []Value
 }
 
 func (s *State) top() *Frame { return s.stack[len(s.stack)-1] }
 
 func (s *State) clone() *State {
-	n := &State{heap: make(map[*Object]interface{}, len(s.heap)), steps: s.steps, ghostDefers: append([]string(nil), s.ghostDefers...)}
+	n := &State{heap: make(map[*Object]interface{}, len(s.heap)), steps: s.steps, ghostDefers: append([]string(nil), s.ghostDefers...), hints: append([]hintSite(nil), s.hints...), results: s.results}
 	for k, v := range s.heap {
 		n.heap[k] = v
 	}
@@ -155,6 +159,8 @@ type Engine struct {
 	globalsRead   map[string]bool
 	opaqueUsed    map[string]bool
 	noCover       bool
+	curArgs       []Value
+	lemmasUsed    map[string]bool
 }
 
 func (e *Engine) note(s string) { e.notes[s] = true }
@@ -184,6 +190,9 @@ func (e *Engine) emit(s *State, kind, site string, goal *Term, pos token.Pos, sr
 	ob := &Oblig{Name: name, Func: funcKey(e.curFn), Mode: e.mode, Kind: kind, Hyps: append([]*Term(nil), s.pc...), Goal: goal, Pos: e.posOf(pos), Src: src, Expect: "unsat"}
 	if e.curC != nil {
 		ob.Props = e.curC.Props
+	}
+	if e.curArgs != nil && len(s.stack) > 0 {
+		ob.run = &runInfo{fn: e.curFn, mode: e.mode, args: e.curArgs, results: s.results, hints: append([]hintSite(nil), s.hints...)}
 	}
 	e.obligs = append(e.obligs, ob)
 	s.assume(goal)
@@ -540,9 +549,35 @@ func (a *absCtx) leaf(name string, s Sort, idx []*Term, lo, hi *big.Int) *Term {
 		}
 		return v
 	}
-	// element of a symbolic container: uninterpreted function of the index chain.
-	// the function name must be stable for the same container: name carries the container identity.
+	// element of a symbolic container: SMT array (integers, one or two index levels) or
+	// uninterpreted function of the index chain.  The name carries the container identity.
 	fname := "f$" + name
+	if s == SInt && (len(idx) == 1 || len(idx) == 2) {
+		srt := SArr
+		if len(idx) == 2 {
+			srt = SArr2
+		}
+		arr := Var(fname, srt)
+		t := Select(arr, idx[0])
+		app := "(select " + smtName(fname) + " i0)"
+		bs := "(i0 Int)"
+		if len(idx) == 2 {
+			t = Select(t, idx[1])
+			app = "(select " + app + " i1)"
+			bs += " (i1 Int)"
+		}
+		if _, ok := funAxioms[fname]; !ok && (lo != nil || hi != nil) {
+			var cs []string
+			if lo != nil {
+				cs = append(cs, fmt.Sprintf("(<= %s %s)", smtInt(lo), app))
+			}
+			if hi != nil {
+				cs = append(cs, fmt.Sprintf("(< %s %s)", app, smtInt(hi)))
+			}
+			funAxioms[fname] = fmt.Sprintf("(assert (forall (%s) (! (and %s) :pattern (%s))))", bs, strings.Join(cs, " "), app)
+		}
+		return t
+	}
 	t := App(fname, s, idx...)
 	if _, ok := funAxioms[fname]; !ok && (lo != nil || hi != nil) {
 		var bs, as []string
